@@ -3,4 +3,4 @@ pub mod broker;
 pub mod threaded_h;
 pub mod tokio_h;
 mod run;
-pub use run::{debug_plan, plan_spec, replay_file, run_c13, run_c16_part, REPLAY_KIND};
+pub use run::{debug_plan, plan_spec, replay_file, run_c13, run_c16_part, run_write_deviation_slice, REPLAY_KIND};
